@@ -613,6 +613,15 @@ class SumOfMinterms(Kind):
         a, w = pool.any(1, 5)
         k = rng.randint(1, min(6, 1 << w))
         ms = sorted(rng.sample(range(1 << w), k))
+        r = rng.random()
+        if r < 0.15:
+            # the list as a user writes it: unsorted, with repeated entries (also exactly 2**w entries that do not list every value)
+            ms = [rng.choice(ms) for _ in range(rng.choice([len(ms) + 1, 1 << w, (1 << w) + 1]))] + ms[:1]
+            rng.shuffle(ms)
+            if w <= 3 and rng.random() < 0.5:
+                ms = (ms * 8)[:1 << w]
+        elif r < 0.2:
+            ms = list(range(1 << w))            # every value: the constant 1
         return {'minterms': ms}, [a], [1]
 
     def build(self, parent, nm, ins, outs, p):
@@ -1674,6 +1683,8 @@ def kinds_with(tag=None, seq=None, exclude=(), include=None):
             continue
         if 'extra' in k.tags and tag is None and 'extra' not in (include or ()):
             continue        # extra kinds only on request (include=('extra',)) or through one of their own tags
+        if 'manual' in k.tags and tag is None:
+            continue        # placed by a check itself, never drawn
         out.append(k)
     return out
 
@@ -1689,7 +1700,9 @@ class DualPortSynchronousMemory(SeqKind):
         dw = rng.choice([1, 4, 8, rand_width(rng, 1, 40)])
         ins = [pool.pick(aw)[0], pool.pick(aw)[0], pool.pick(1)[0], pool.pick(dw)[0],
                pool.pick(aw)[0], pool.pick(aw)[0], pool.pick(1)[0], pool.pick(dw)[0]]
-        return {}, ins, [dw, dw]
+        # the two read ports need not have the width of the stored words (a narrower port shows the low bits)
+        dwb = dw if (dw < 3 or rng.random() < 0.75) else rng.randint(1, dw - 1)
+        return {}, ins, [dw, dwb]
 
     def build(self, parent, nm, ins, outs, p):
         # (read_address_a, write_address_a, write_a, readdata_a, writedata_a, read_address_b, ...)
@@ -1836,6 +1849,159 @@ class DefaultOverride(SeqKind):
 
     def nxt(self, p, st, iv, iw, ow):
         return M(iv[0] - p['k'], ow[0])
+
+
+class _ShiftLane(py4hw.Logic):
+    """plain structural helper without Verilog parameters of its own: r = ~(a << n)"""
+
+    def __init__(self, parent, name, a, r, n):
+        super().__init__(parent, name)
+        self.addIn('a', a)
+        self.addOut('r', r)
+        t = self.wire('t', a.getWidth())
+        py4hw.ShiftLeftConstant(self, 'sh', a, n, t)
+        py4hw.Not(self, 'inv', t, r)
+
+
+class _ParamShifter(py4hw.Logic):
+    """a block with a Verilog parameter SHIFT that it uses in a constant shifter of its own and hands on, by reference, to a
+    constant shifter inside a helper sub-block: r0 = a >> SHIFT, r1 = ~(a << SHIFT)"""
+
+    def __init__(self, parent, name, a, r0, r1, shift):
+        super().__init__(parent, name)
+        self.addIn('a', a)
+        self.addOut('r0', r0)
+        self.addOut('r1', r1)
+        self.addParameter('SHIFT', shift)
+        py4hw.ShiftRightConstant(self, 'sh', a, self.getParameter('SHIFT'), r0)
+        _ShiftLane(self, 'lane', a, r1, self.getParameter('SHIFT'))
+
+
+@register
+class ParamShifter(Kind):
+    name = 'ParamShifter'
+    tags = ('extra', 'userblock', 'paramshift')
+    weight = 0.8
+
+    def plan(self, rng, pool):
+        a, w = pool.any(2, 32)
+        return {'shift': rng.randint(0, w)}, [a], [w, w]
+
+    def build(self, parent, nm, ins, outs, p):
+        return _ParamShifter(parent, nm, ins[0], outs[0], outs[1], p['shift'])
+
+    def outs(self, p, st, iv, iw, ow):
+        return [M(iv[0] >> p['shift'], ow[0]), M(~M(iv[0] << p['shift'], iw[0]), ow[1])]
+
+
+class _Thrower(py4hw.Logic):
+    """a checker block: its clock() raises when the input is 1 (an assertion of the user, a Ctrl-C landing there)"""
+
+    def __init__(self, parent, name, fire, r):
+        super().__init__(parent, name)
+        self.fire = self.addIn('fire', fire)
+        self.r = self.addOut('r', r)
+
+    def clock(self):
+        if self.fire.get():
+            raise RuntimeError('checker fired')
+        self.r.prepare(0)
+
+
+@register
+class Thrower(SeqKind):
+    name = 'Thrower'
+    tags = ('seq', 'extra', 'simonly', 'userblock', 'manual')
+
+    def plan(self, rng, pool):
+        return {}, [pool.new_input(1)[0]], [1]
+
+    def build(self, parent, nm, ins, outs, p):
+        return _Thrower(parent, nm, ins[0], outs[0])
+
+    def init(self, p, iw, ow):
+        return 0
+
+    def outs(self, p, st, iv, iw, ow):
+        return [0]
+
+    def nxt(self, p, st, iv, iw, ow):
+        return 0
+
+
+class _PickyInc(py4hw.Logic):
+    """a user block that validates its input: r = a + 1, but the value `bad` is refused with an exception"""
+
+    def __init__(self, parent, name, a, r, bad):
+        super().__init__(parent, name)
+        self.a = self.addIn('a', a)
+        self.r = self.addOut('r', r)
+        self.bad = bad
+
+    def propagate(self):
+        v = self.a.get()
+        if v == self.bad:
+            raise ValueError('input value {} is not allowed'.format(v))
+        self.r.put(v + 1)
+
+
+@register
+class PickyInc(Kind):
+    name = 'PickyInc'
+    tags = ('extra', 'simonly', 'userblock', 'picky', 'manual')
+
+    def plan(self, rng, pool):
+        w = rng.choice([2, 4, 8])
+        a = pool.new_input(w)[0]
+        return {'bad': (1 << w) - 1}, [a], [w]
+
+    def build(self, parent, nm, ins, outs, p):
+        return _PickyInc(parent, nm, ins[0], outs[0], p['bad'])
+
+    def outs(self, p, st, iv, iw, ow):
+        return [M(iv[0] + 1, ow[0])]
+
+
+class _MooreAcc(py4hw.Logic):
+    """a user block with both methods: clock() updates a state attribute from the pre-edge input, propagate() shows the
+    state on the output (a Moore machine whose output wire is not written at the edge itself)"""
+
+    def __init__(self, parent, name, a, r):
+        super().__init__(parent, name)
+        self.a = self.addIn('a', a)
+        self.r = self.addOut('r', r)
+        self.acc = 0
+
+    def clock(self):
+        self.acc = (self.acc + self.a.get() + 1) & ((1 << self.r.getWidth()) - 1)
+
+    def propagate(self):
+        self.r.put(self.acc)
+
+
+@register
+class MooreAcc(SeqKind):
+    name = 'MooreAcc'
+    tags = ('seq', 'extra', 'simonly', 'userblock', 'moore_propagate')
+    weight = 0.8
+    mealy = True          # to the library's sorter every block with propagate() is combinational from all its inputs
+    stateless = False
+
+    def plan(self, rng, pool):
+        a, w = pool.any(1, 32)
+        return {}, [a], [rng.choice([w, w, max(1, w - 1), w + 2])]
+
+    def build(self, parent, nm, ins, outs, p):
+        return _MooreAcc(parent, nm, ins[0], outs[0])
+
+    def init(self, p, iw, ow):
+        return 0
+
+    def outs(self, p, st, iv, iw, ow):
+        return [st]
+
+    def nxt(self, p, st, iv, iw, ow):
+        return M(st + iv[0] + 1, ow[0])
 
 
 class _StepAdd(py4hw.Logic):
